@@ -598,24 +598,37 @@ def oracle_factory(t, r):
             return "[ids] duplicated or missing ids"
         return None
     id_ = unq(t.s())
-    w = r.s()
-    if w == "missing":
+    mask = t.int()
+    if r.t[r.i:r.i + 1] == ["missing"]:
+        r.s()
         # get() of an id that was never registered returns null; the generator names such ids `no-such-…`
         return None if id_.startswith("no-such-") and r.done() else f"[missing-id] the factory `{f}` has no object `{id_}`"
-    ty = unq(w)
+    tree = read_tree(r)
+    ty, params, kids = tree
     if ty != id_:
         return f"[type-id] `{f}`/`{id_}` reports type_id `{ty}`"
-    n = r.int()
-    params = []
-    for _ in range(n):
-        name = unq(r.s()); st = read_state(r)
-        if not in_domain(st):
-            return f"[default-out-of-domain] `{f}`/`{id_}` parameter `{name}` has its default outside the domain: {st}"
-        params.append((name, st))
+    bad = tree_out_of_domain(tree)
+    if bad:
+        return f"[default-out-of-domain] `{f}`/`{id_}` {bad[0]} parameter `{bad[1]}` has its default outside the domain: {bad[2]}"
+    n = len(params)
     if len({p[0] for p in params}) != len(params):
         return f"[duplicate-register] `{f}`/`{id_}` has two parameters with one name"
+    # the configuration the original is given before it is cloned
+    if r.s() != "pre" or r.int() != n:
+        return f"[answer] `{f}`/`{id_}`: malformed answer (pre)"
+    pre = []
+    for k, (name, st) in enumerate(params):
+        nm = unq(r.s()); got = conv_state(T.read_state(r))
+        if nm != name or not same_domain(got, conv_state(st)):
+            return f"[domain-changed] `{f}`/`{id_}` parameter `{nm}` changed its kind/bounds/comparators when assigned"
+        if not in_domain(got):
+            return f"[out-of-domain] `{f}`/`{id_}` parameter `{name}` left its domain: {got}"
+        if not (mask >> (k % 62)) & 1 and not same_state(got, conv_state(st)):
+            return f"[clone-not-independent] `{f}`/`{id_}` parameter `{name}` changed although it was not assigned"
+        pre.append((name, got))
     if r.s() != "cloneeq" or r.s() != "1":
-        return f"[clone-differs] the clone of `{f}`/`{id_}` does not have equal parameters / type_id"
+        return (f"[clone-differs] the clone of `{f}`/`{id_}` (configured with mask {mask}) does not have equal "
+                "parameters / type_id / owned objects")
     if r.s() != "probe" or r.s() not in ("1", "-1"):
         return f"[clone-behaves-differently] the clone of `{f}`/`{id_}` answers the probe input differently"
     if r.s() != "origsame" or r.s() != "1":
@@ -624,12 +637,278 @@ def oracle_factory(t, r):
         return f"[clone-differs] the clone of a modified `{f}`/`{id_}` does not carry the modified parameters"
     if r.s() != "clone" or r.int() != n:
         return f"[clone-differs] the clone of `{f}`/`{id_}` has a different number of parameters"
-    for (name, st) in params:
+    for (name, st) in pre:
         nm = unq(r.s()); got = read_state(r)
         if nm != name or not same_domain(got, st):
             return f"[clone-differs] clone parameter `{nm}` does not match `{name}`"
         if not in_domain(got):
             return f"[out-of-domain] clone parameter `{name}` left its domain: {got}"
+    return None if r.done() else "[answer] trailing tokens"
+
+
+# ---------------------------------------------------------------------------------------------------------
+# objects that own other objects: configuration trees (type_id, [(name, raw state)], [(child, tree)]); raw states carry
+# doubles as their 16 hex digits, so `==` on trees is bit-for-bit equality
+
+def read_tree(t):
+    return T.read_tree(t)
+
+
+def conv_state(raw):
+    st = dict(raw)
+    if st["kind"] == "float":
+        for f in ("value", "min", "max"):
+            st[f] = h2f(st[f])
+    if st["kind"] == "fpair":
+        for f in ("value1", "value2", "min", "max"):
+            st[f] = h2f(st[f])
+    return st
+
+
+def raw_state(st):
+    raw = dict(st)
+    if st["kind"] == "float":
+        for f in ("value", "min", "max"):
+            raw[f] = f2h(st[f])
+    if st["kind"] == "fpair":
+        for f in ("value1", "value2", "min", "max"):
+            raw[f] = f2h(st[f])
+    return raw
+
+
+def tree_out_of_domain(tree, path="own"):
+    """(where, name, state) of the first parameter of the tree that is outside its declared domain"""
+    ty, params, kids = tree
+    for name, raw in params:
+        if not in_domain(conv_state(raw)):
+            return (path, name, conv_state(raw))
+    for child, k in kids:
+        bad = tree_out_of_domain(k, (path + "/" if path != "own" else "") + child)
+        if bad:
+            return bad
+    return None
+
+
+def tree_diff(a, b, path=""):
+    """where two configuration trees differ first (None when they are equal)"""
+    if a[0] != b[0]:
+        return f"{path or 'the object'}: type_id `{a[0]}` vs `{b[0]}`"
+    if [n for n, _ in a[1]] != [n for n, _ in b[1]]:
+        return f"{path or 'the object'}: different parameter names"
+    for (n, x), (_, y) in zip(a[1], b[1]):
+        if x != y:
+            return f"{path + '/' if path else ''}{n}: {show_raw(x)} vs {show_raw(y)}"
+    if [c for c, _ in a[2]] != [c for c, _ in b[2]]:
+        return f"{path or 'the object'}: owned objects {[c for c, _ in a[2]]} vs {[c for c, _ in b[2]]}"
+    for (c, x), (_, y) in zip(a[2], b[2]):
+        d = tree_diff(x, y, (path + "/" if path else "") + c)
+        if d:
+            return d
+    return None
+
+
+def show_raw(raw):
+    st = conv_state(raw)
+    if "value" in st:
+        return repr(st["value"])
+    if "value1" in st:
+        return repr((st["value1"], st["value2"]))
+    return st["kind"]
+
+
+CHILD_KIND = {("solver", "lsearch0"): "lsearch0", ("solver", "lsearchk"): "lsearchk",
+              ("params", "tuner"): "tuner", ("params", "solver"): "solver", ("params", "splitter"): "splitter"}
+OWNER_KINDS = ["solver", "lsearch0", "lsearchk", "tuner", "splitter", "wlearner", "params", "gboost"]
+
+
+def child_kind(kind, child):
+    if kind == "gboost" and re.fullmatch(r"proto[0-9]+", child):
+        return "wlearner"
+    return CHILD_KIND.get((kind, child))
+
+
+def default_tree(entries, kind, id_):
+    """what the factory of `kind` hands out for `id_` according to the dump of the current build (None: unknown id)"""
+    for k, tree in getattr(entries, "owners", []):
+        if k == kind and id_ == kind:
+            return tree
+    for e in entries:
+        if e[0] == kind and e[1] == id_:
+            kids = []
+            for (child, cf, cid) in getattr(e, "kids", []):
+                kids.append((child, default_tree(entries, cf, cid)))
+            return (e[2], [(n, st) for n, st in e[3]], kids)
+    return None
+
+
+def with_kid(tree, child, kid):
+    return (tree[0], tree[1], [(c, kid if c == child else k) for c, k in tree[2]])
+
+
+def kid_of(tree, child):
+    for c, k in tree[2]:
+        if c == child:
+            return k
+    return None
+
+
+def read_oop(t):
+    """-> (kind, args…) of one operation of an owner history, and its wire text"""
+    start = t.i
+    k = t.s()
+    if k == "new":
+        o = (k, t.s(), unq(t.s()))
+    elif k == "set":
+        v = t.int(); name = unq(t.s()); op, args, _ = read_op(t)
+        o = (k, v, name, op, args)
+    elif k == "inst":
+        o = (k, t.int(), t.s(), t.int())
+    elif k == "instid":
+        o = (k, t.int(), t.s(), unq(t.s()))
+    elif k == "protos":
+        v = t.int(); n = t.int()
+        o = (k, v, [t.int() for _ in range(n)])
+    elif k == "ext":
+        o = (k, t.int(), t.s())
+    elif k == "clone":
+        o = (k, t.int())
+    elif k in ("assign", "probe"):
+        o = (k, t.int(), t.int())
+    else:
+        raise ValueError("owner op " + k)
+    return o, " ".join(t.t[start:t.i])
+
+
+def read_slots(r):
+    n = r.int()
+    return [(r.s(), read_tree(r)) for _ in range(n)]
+
+
+def oracle_owner(t, r):
+    """the statement, step by step, on the configuration trees the implementation prints after every operation:
+    a copy (clone / copy construction / assignment / what a setter stores / what an extracted object is) equals its source
+    in type_id, parameters and owned objects, recursively; an operation changes nothing but the variable it is applied to
+    (independence of clone and original, in both directions); an assignment to a parameter follows the reference
+    semantics of the parameter; equal configuration trees answer the probe identically; every parameter of every object
+    is inside its domain"""
+    n = t.int()
+    oops = [read_oop(t)[0] for _ in range(n)]
+    if r.s() != "ok":
+        return "[answer] implementation did not answer ok"
+    prev = []
+    entries = _ENTRIES
+    for o in oops:
+        k = o[0]
+        if r.s() != ";":
+            return "[answer] malformed history answer"
+        w = r.s()
+        threw = w == "throw"
+        if threw:
+            r.s()
+        answer = r.int() if w == "probe" else None
+        if r.s() != "/":
+            return "[answer] malformed history answer"
+        cur = read_slots(r)
+        what = " ".join(str(x) for x in o[:4])
+        for i, (kind, tree) in enumerate(cur):
+            bad = tree_out_of_domain(tree)
+            if bad:
+                return f"[out-of-domain] after `{what}` variable {i} ({kind}): {bad[0]} parameter `{bad[1]}` is outside its domain: {bad[2]}"
+        creates = k in ("new", "ext", "clone") and w == "ok"
+        target = o[1] if k in ("set", "inst", "instid", "protos", "assign") and not threw else None
+        if len(cur) != len(prev) + (1 if creates else 0):
+            return f"[answer] `{what}`: {len(prev)} variables before, {len(cur)} after"
+        # independence: nothing but the variable the operation is applied to changes
+        for i in range(len(prev)):
+            if i != target and cur[i] != prev[i]:
+                d = tree_diff(prev[i][1], cur[i][1])
+                return (f"[clone-not-independent] `{what}` changed variable {i} ({prev[i][0]}), which it is not applied to: {d}"
+                        if not threw else f"[rejected-not-noop] `{what}` threw but variable {i} changed: {d}")
+        if k == "new":
+            exp = default_tree(entries, o[1], o[2]) if entries else None
+            if w == "missing":
+                if entries and exp is not None:
+                    return f"[missing-id] the factory `{o[1]}` has no object `{o[2]}`"
+            elif w != "ok":
+                return f"[answer] `{what}` answered {w}"
+            else:
+                kind, tree = cur[-1]
+                if kind != o[1] or tree[0] != o[2]:
+                    return f"[type-id] `{o[1]}`/`{o[2]}` reports type_id `{tree[0]}`"
+                if exp is not None and tree != exp:
+                    return f"[clone-differs] two objects got from `{o[1]}`/`{o[2]}` differ: {tree_diff(exp, tree)}"
+        elif k == "clone":
+            if w != "ok":
+                return f"[answer] `{what}` answered {w}"
+            if cur[-1][0] != prev[o[1]][0]:
+                return f"[answer] `{what}`: the copy is a {cur[-1][0]}"
+            d = tree_diff(prev[o[1]][1], cur[-1][1])
+            if d:
+                return f"[clone-differs] the clone of variable {o[1]} ({prev[o[1]][0]} `{prev[o[1]][1][0]}`) differs from it: {d}"
+        elif k == "assign":
+            d = tree_diff(prev[o[2]][1], cur[o[1]][1])
+            if w != "ok" or d:
+                return f"[clone-differs] after `{what}` the assigned {prev[o[1]][0]} differs from its source: {d or w}"
+        elif k == "ext":
+            src = kid_of(prev[o[1]][1], o[2])
+            if w != "ok" or src is None or cur[-1][0] != child_kind(prev[o[1]][0], o[2]):
+                return f"[answer] `{what}` answered {w}"
+            d = tree_diff(src, cur[-1][1])
+            if d:
+                return f"[clone-differs] the clone of the {o[2]} owned by variable {o[1]} differs from it: {d}"
+        elif k == "inst":
+            exp = with_kid(prev[o[1]][1], o[2], prev[o[3]][1])
+            d = tree_diff(exp, cur[o[1]][1])
+            if w != "ok" or d:
+                return f"[install-differs] after `{what}` the owner does not hold a copy of the installed object: {d or w}"
+        elif k == "instid":
+            ck = child_kind(prev[o[1]][0], o[2])
+            fresh = default_tree(entries, ck, o[3]) if entries else None
+            if entries and fresh is None:
+                if not threw:
+                    return f"[missing-throw] `{what}`: the unknown id was accepted"
+            else:
+                if threw:
+                    return f"[spurious-throw] `{what}` threw although the id is registered"
+                if w != "ok" or cur[o[1]][1][0:2] != prev[o[1]][1][0:2] or (kid_of(cur[o[1]][1], o[2]) or ("",))[0] != o[3]:
+                    return f"[install-differs] after `{what}` the owner does not hold a `{o[3]}`"
+                if fresh is not None:
+                    d = tree_diff(with_kid(prev[o[1]][1], o[2], fresh), cur[o[1]][1])
+                    if d:
+                        return f"[install-differs] after `{what}` the owned object is not what the factory hands out: {d}"
+        elif k == "protos":
+            old = prev[o[1]][1]
+            exp = (old[0], old[1], [(f"proto{j}", prev[s][1]) for j, s in enumerate(o[2])])
+            d = tree_diff(exp, cur[o[1]][1])
+            if w != "ok" or d:
+                return f"[install-differs] after `{what}` the model does not hold copies of the prototypes: {d or w}"
+        elif k == "set":
+            v, name, op, args = o[1:]
+            old = prev[v][1]
+            names = [nm for nm, _ in old[1]]
+            if name not in names:
+                if not threw:
+                    return f"[unknown-name] `{what}`: the unknown name did not throw"
+            else:
+                j = names.index(name)
+                st = conv_state(old[1][j][1])
+                new, expect = ref_step(st, op, args)
+                if expect[0] == "ok" and threw:
+                    return f"[spurious-throw] `{what}` threw although the property requires it to succeed"
+                if expect[0] == "throw" and not threw:
+                    return f"[missing-throw] `{what}` was accepted although the property requires a throw"
+                if new is not None and not threw:
+                    exp = (old[0], [(nm, raw_state(new) if jj == j else raw) for jj, (nm, raw) in enumerate(old[1])], old[2])
+                    d = tree_diff(exp, cur[v][1])
+                    if d:
+                        return f"[read-back] after `{what}`: {d} (reference vs implementation)"
+        elif k == "probe":
+            if answer not in (-1, 0, 1):
+                return f"[answer] `{what}` answered {answer}"
+            if answer == 0 and prev[o[1]] == prev[o[2]]:
+                return (f"[clone-behaves-differently] variables {o[1]} and {o[2]} ({prev[o[1]][0]} `{prev[o[1]][1][0]}`) have equal "
+                        "type_id, parameters and owned objects but answer the probe input differently")
+        prev = cur
     return None if r.done() else "[answer] trailing tokens"
 
 
@@ -645,6 +924,8 @@ def oracle(op, res):
         return oracle_param(t, r)
     if fam == "config":
         return oracle_config(t, r)
+    if fam == "owner":
+        return oracle_owner(t, r)
     return f"unknown family {fam}"
 
 
@@ -892,14 +1173,344 @@ ICANDS = [1, 2, 3, 0, 5, 10, 7, 100, 1000, -1, 50, 20, 31, 64]
 
 
 def factory_ops(rng, entries, nvariants):
+    """variant 0: the factory-fresh object; the others: a random subset of the parameters is given another value of its
+    domain before the clone is taken (bit k % 62 of the mask <-> parameter k)"""
     ops = [f"factory ids {f}" for f in T.FACTORIES]
-    for (f, id_, _, _) in entries:
+    for e in entries:
+        f, id_ = e[0], e[1]
         for v in range(nvariants):
-            ic = ICANDS if v == 0 else rng.shuffle(ICANDS)[:rng.range(2, 8)] + [rng.range(-3, 2000)]
-            fc = FCANDS if v == 0 else rng.shuffle(FCANDS)[:rng.range(2, 8)] + [rng.uniform(-1.0, 3.0), NAN]
-            ops.append(f"factory walk {f} {q(id_)} {len(ic)} " + " ".join(str(i) for i in ic) + f" {len(fc)} " +
+            ic = ICANDS if v <= 1 else rng.shuffle(ICANDS)[:rng.range(2, 8)] + [rng.range(-3, 2000)]
+            fc = FCANDS if v <= 1 else rng.shuffle(FCANDS)[:rng.range(2, 8)] + [rng.uniform(-1.0, 3.0), NAN]
+            mask = 0 if v == 0 else (rng.u64() >> 2) | (1 << rng.below(max(1, min(62, len(e[3])))))
+            if v == 1 and rng.chance(0.3):
+                mask = (1 << 62) - 1
+            ops.append(f"factory walk {f} {q(id_)} {mask} {len(ic)} " + " ".join(str(i) for i in ic) + f" {len(fc)} " +
                        " ".join(hx(x) for x in fc))
-    ops.append("factory walk solver " + q("no-such-solver") + " 0 0")
+    ops.append("factory walk solver " + q("no-such-solver") + " 0 0 0")
+    return ops
+
+
+# --- histories over objects that own other objects --------------------------------------------------------
+
+def assign_text(rng, name, raw, inside=True):
+    """an assignment (wire text) that gives the parameter another value of its domain (inside) / a value outside of it;
+    None when there is no such value"""
+    st = conv_state(raw)
+    k = st["kind"]
+    def ok(new):
+        d = dict(st); d.update(new)
+        return in_domain(d) == inside and (not inside or not same_state(d, st))
+    if k == "enum":
+        if not inside:
+            return "ss " + q("no-such-name")
+        other = [d for d in st["domain"] if d != st["value"]]
+        return "ss " + q(rng.choice(other)) if other else None
+    if k == "str":
+        return "ss " + q(st["value"] + rng.choice(["x", " y", "%"])) if inside else None
+    if k == "int":
+        mn, mx, v = st["min"], st["max"], st["value"]
+        cands = [mn, mn + 1, mx, mx - 1, v + 1, v - 1, v + 7, v // 2, 1, 2, 3, 5, 10, 20, 50, 100, rng.range(mn, min(mx, mn + 2000))]
+        if name == "solver::max_evals":
+            cands = [10, 11, 20, 50, 100, 150, 200, 300, rng.range(10, 300)]      # the probe minimises with this budget
+        if name == "lsearchk::max_iterations" and inside and rng.chance(0.6):
+            cands = [1, 2, 3, 4]                                                     # the line-search configuration matters
+        if not inside:
+            cands = [mn - 1, mx + 1, mn - 100, mx + 100] + ([mn] if st["mincomp"] == "lt" else []) + ([mx] if st["maxcomp"] == "lt" else [])
+        cands = [c for c in cands if I64MIN <= c <= I64MAX and ok({"value": c})]
+        if not cands:
+            return None
+        c = rng.choice(cands)
+        return rng.choice([f"si {c}", f"si {c}", "sf " + hx(float(c)) if abs(c) < 2 ** 52 else f"si {c}", "ss " + q(str(c))])
+    if k == "float":
+        mn, mx, v = st["min"], st["max"], st["value"]
+        lo = mn if finite(mn) else -1e6
+        hi = mx if finite(mx) else 1e6
+        cands = [mn, mx, ulp_next(lo), ulp_prev(hi), v * 0.5, v * 2.0, 0.5 * (lo + v), 0.5 * (v + hi), ulp_next(v), ulp_prev(v),
+                 rng.uniform(lo, hi), 0.1, 0.25, 0.4, 0.9, 1.5, 2.0, 1e-3]
+        if not inside:
+            cands = [ulp_prev(lo), ulp_next(hi), lo - 1.0, hi + 1.0, NAN, INF, -INF, mn, mx]
+        cands = [c for c in cands if ok({"value": c})]
+        if not cands:
+            return None
+        c = rng.choice(cands)
+        return rng.choice(["sf " + hx(c), "sf " + hx(c), "ss " + q(repr(c))]) if finite(c) else "sf " + hx(c)
+    if k in ("ipair", "fpair"):
+        mn, mx, a, b = st["min"], st["max"], st["value1"], st["value2"]
+        if k == "ipair":
+            vals = sorted({mn, mn + 1, a, a + 1, b, b - 1, mx - 1, mx, rng.range(mn, min(mx, mn + 1000))})
+        else:
+            lo = mn if finite(mn) else -1e6
+            hi = mx if finite(mx) else 1e6
+            vals = sorted({lo, ulp_next(lo), 0.5 * (lo + a), a, 0.5 * (a + b), b, 0.5 * (b + hi), ulp_prev(hi), hi, rng.uniform(lo, hi)})
+        pairs = [(x, y) for x in vals for y in vals]
+        if not inside:
+            pairs = [(y, x) for (x, y) in pairs if x < y] + [(mn - 1, b), (a, mx + 1)]
+        pairs = [(x, y) for (x, y) in pairs if ok({"value1": x, "value2": y})]
+        if not pairs:
+            return None
+        x, y = rng.choice(pairs)
+        if k == "ipair":
+            return rng.choice([f"spi {x} {y}", "ss " + q(f"{x},{y}")])
+        return rng.choice([f"spf {hx(x)} {hx(y)}", f"spf {hx(x)} {hx(y)}", "ss " + q(f"{x!r};{y!r}")])
+    return None
+
+
+class OwnerHist:
+    """builds one `owner hist` line; keeps what every variable holds (kind + configuration tree, by value: the value
+    semantics the property demands) so that later operations can refer to existing parameters and owned objects"""
+    def __init__(self, rng, entries):
+        self.rng, self.entries, self.ops, self.vars = rng, entries, [], []
+
+    def ids(self, kind):
+        if kind in ("params", "gboost"):
+            return [kind]
+        return [e[1] for e in self.entries if e[0] == kind]
+
+    def new(self, kind, id_=None):
+        id_ = id_ if id_ is not None else self.rng.choice(self.ids(kind))
+        self.ops.append(f"new {kind} {q(id_)}")
+        tree = default_tree(self.entries, kind, id_)
+        if tree is None:
+            return None
+        self.vars.append((kind, tree))
+        return len(self.vars) - 1
+
+    def set(self, v, count=1, inside=True, name=None):
+        """`count` assignments to randomly chosen parameters of variable v"""
+        kind, tree = self.vars[v]
+        for _ in range(count):
+            if not tree[1]:
+                return
+            names = [n for n, _ in tree[1]]
+            # lsearchk::tolerance / lsearch0::epsilon are overwritten by the solver at minimize(): they are assigned too, but
+            # a parameter that the probe can see is preferred
+            nm = name or self.rng.choice(names)
+            j = names.index(nm)
+            text = assign_text(self.rng, nm, tree[1][j][1], inside)
+            if text is None:
+                continue
+            self.ops.append(f"set {v} {q(nm)} {text}")
+            op, args, _ = read_op(Toks(text))
+            new, expect = ref_step(conv_state(tree[1][j][1]), op, args)
+            if expect[0] == "ok" and new is not None:
+                tree = (tree[0], [(n, raw_state(new) if jj == j else r) for jj, (n, r) in enumerate(tree[1])], tree[2])
+                self.vars[v] = (kind, tree)
+
+    def inst(self, d, child, s):
+        self.ops.append(f"inst {d} {child} {s}")
+        self.vars[d] = (self.vars[d][0], with_kid(self.vars[d][1], child, self.vars[s][1]))
+
+    def instid(self, d, child, id_):
+        self.ops.append(f"instid {d} {child} {q(id_)}")
+        fresh = default_tree(self.entries, child_kind(self.vars[d][0], child), id_)
+        if fresh is not None:
+            self.vars[d] = (self.vars[d][0], with_kid(self.vars[d][1], child, fresh))
+
+    def protos(self, d, srcs):
+        self.ops.append(f"protos {d} {len(srcs)} " + " ".join(str(x) for x in srcs) if srcs else f"protos {d} 0")
+        old = self.vars[d][1]
+        self.vars[d] = (self.vars[d][0], (old[0], old[1], [(f"proto{j}", self.vars[x][1]) for j, x in enumerate(srcs)]))
+
+    def ext(self, v, child):
+        self.ops.append(f"ext {v} {child}")
+        self.vars.append((child_kind(self.vars[v][0], child), kid_of(self.vars[v][1], child)))
+        return len(self.vars) - 1
+
+    def clone(self, v):
+        self.ops.append(f"clone {v}")
+        self.vars.append(self.vars[v])
+        return len(self.vars) - 1
+
+    def assign(self, d, s):
+        self.ops.append(f"assign {d} {s}")
+        self.vars[d] = self.vars[s]
+
+    def probe(self, a, b):
+        self.ops.append(f"probe {a} {b}")
+
+    def configured(self, kind, id_=None, count=None):
+        """a new object of `kind` with some parameters away from their defaults"""
+        v = self.new(kind, id_)
+        n = len(self.vars[v][1][1])
+        self.set(v, count if count is not None else self.rng.range(1, max(1, min(3, n))))
+        if kind == "lsearchk" and self.rng.chance(0.7):
+            self.set(v, 1, name="lsearchk::max_iterations")
+        if self.rng.chance(0.15):
+            self.set(v, 1, inside=False)
+        return v
+
+    def change_owned(self, v, child):
+        """the only way the public interface offers to change an owned object: take a copy, change it, install it"""
+        w = self.ext(v, child)
+        self.set(w, self.rng.range(1, 2))
+        self.inst(v, child, w)
+        return w
+
+    def line(self):
+        return f"owner hist {len(self.ops)} " + " ".join(self.ops)
+
+
+def solver_hist(rng, entries, sid, variant):
+    h = OwnerHist(rng, entries)
+    s = h.new("solver", sid)
+    if variant == 0:
+        # the sequence of seeded change C19-a3: configure a line-search away from its defaults, install it, clone
+        k = h.configured("lsearchk")
+        h.inst(s, "lsearchk", k)
+        h.set(s, 1, name="solver::max_evals")
+        c = h.clone(s)
+        h.probe(s, c)
+        h.change_owned(c, "lsearchk")          # the clone's owned object changes: the original must not
+        h.probe(s, c)
+        cc = h.clone(c)                        # the clone of the clone carries the clone's configuration
+        h.probe(c, cc)
+    elif variant == 1:
+        z = h.configured("lsearch0")
+        h.inst(s, "lsearch0", z)
+        h.set(s, rng.range(0, 2))
+        c = h.clone(s)
+        h.probe(s, c)
+        h.change_owned(s, rng.choice(["lsearch0", "lsearchk"]))     # the original's owned object changes: the clone must not
+        h.set(s, 1)
+        h.probe(s, c)
+        h.instid(c, rng.choice(["lsearch0", "lsearchk"]), rng.choice(h.ids("lsearch0") + h.ids("lsearchk") + ["no-such-id"]))
+        h.clone(s)
+    else:
+        k = h.configured("lsearchk")
+        z = h.configured("lsearch0")
+        h.inst(s, "lsearchk", k)
+        h.inst(s, "lsearch0", z)
+        h.set(s, rng.range(1, 3))
+        h.set(k, 1)                            # the installed object is a copy: changing the source changes nothing
+        c = h.clone(s)
+        cc = h.clone(c)
+        h.probe(s, cc)
+        e = h.ext(cc, "lsearchk")
+        h.set(e, 1)
+        h.probe(c, cc)
+    return h.line()
+
+
+def params_hist(rng, entries):
+    h = OwnerHist(rng, entries)
+    p = h.new("params")
+    s = h.configured("solver")
+    if rng.chance(0.8):
+        k = h.configured("lsearchk")
+        h.inst(s, "lsearchk", k)
+    if rng.chance(0.4):
+        z = h.configured("lsearch0")
+        h.inst(s, "lsearch0", z)
+    h.set(s, 1, name="solver::max_evals")
+    h.inst(p, "solver", s)
+    if rng.chance(0.6):
+        h.inst(p, "splitter", h.configured("splitter"))
+    if rng.chance(0.6):
+        h.inst(p, "tuner", h.configured("tuner"))
+    c = h.clone(p)
+    h.probe(p, c)
+    u = rng.below(4)
+    if u == 0:
+        q2 = h.new("params")
+        h.assign(q2, p)
+        h.probe(p, q2)
+        h.change_owned(q2, rng.choice(["solver", "splitter", "tuner"]))
+        h.probe(p, q2)
+    elif u == 1:
+        h.change_owned(p, rng.choice(["solver", "splitter", "tuner"]))
+        h.probe(p, c)
+        h.assign(p, c)
+        h.probe(p, c)
+    elif u == 2:
+        e = h.ext(c, "solver")
+        h.change_owned(e, "lsearchk")
+        h.inst(c, "solver", e)
+        cc = h.clone(c)
+        h.probe(c, cc)
+        h.probe(p, cc)
+    else:
+        h.instid(c, rng.choice(["solver", "splitter", "tuner"]),
+                 rng.choice(h.ids("solver") + h.ids("splitter") + h.ids("tuner") + ["no-such-id"]))
+        h.assign(c, c)
+        h.clone(c)
+    return h.line()
+
+
+def gboost_hist(rng, entries):
+    h = OwnerHist(rng, entries)
+    g = h.new("gboost")
+    ws = [h.configured("wlearner") for _ in range(rng.range(1, 3))]
+    h.set(g, rng.range(0, 3))
+    h.protos(g, [rng.choice(ws) for _ in range(rng.range(1, 4))])
+    h.set(ws[0], 1)
+    c = h.clone(g)
+    u = rng.below(3)
+    if u == 0:
+        g2 = h.new("gboost")
+        h.assign(g2, g)
+        h.protos(g2, [])
+        h.set(g2, 1)
+        h.clone(g2)
+    elif u == 1:
+        e = h.ext(c, "proto0")
+        h.set(e, 2)
+        h.protos(c, [e] + ws)
+        h.assign(g, c)
+        h.set(c, 1)
+    else:
+        h.set(c, 2)
+        h.set(g, 1, inside=False)
+        h.clone(c)
+        h.assign(c, g)
+    return h.line()
+
+
+def random_hist(rng, entries):
+    h = OwnerHist(rng, entries)
+    for _ in range(rng.range(2, 4)):
+        h.new(rng.choice(["solver", "solver", "lsearchk", "lsearch0", "params", "splitter", "tuner"]))
+    for _ in range(rng.range(3, 9)):
+        v = rng.below(len(h.vars))
+        kind = h.vars[v][0]
+        u = rng.unit()
+        same = [i for i, (k, _) in enumerate(h.vars) if k == kind]
+        if u < 0.25 and kind != "params":
+            h.set(v, 1, inside=rng.chance(0.85))
+        elif u < 0.45 and len(h.vars) < 9:
+            h.clone(v)
+        elif u < 0.65 and kind in ("solver", "params"):
+            child = rng.choice([c for (k, c) in CHILD_KIND if k == kind])
+            src = [i for i, (k, _) in enumerate(h.vars) if k == CHILD_KIND[(kind, child)]]
+            if src:
+                h.inst(v, child, rng.choice(src))
+            else:
+                h.instid(v, child, rng.choice(h.ids(CHILD_KIND[(kind, child)]) + ["no-such-id"]))
+        elif u < 0.75 and kind in ("solver", "params") and len(h.vars) < 9:
+            h.ext(v, rng.choice([c for (k, c) in CHILD_KIND if k == kind]))
+        elif u < 0.8 and kind == "params":
+            h.assign(v, rng.choice(same))
+        elif kind in ("solver", "params", "splitter"):
+            h.probe(v, rng.choice(same))
+        elif len(h.vars) < 9:
+            h.new(rng.choice(["lsearchk", "lsearch0", "solver"]))
+    return h.line()
+
+
+def owner_ops(rng, entries, thorough):
+    if not entries or not getattr(entries, "owners", None):
+        return []
+    ops = []
+    for e in entries:
+        if e[0] == "solver":
+            for variant in range(3):
+                for _ in range(3 if thorough else 1):
+                    ops.append(solver_hist(rng, entries, e[1], variant))
+    for _ in range(200 if thorough else 30):
+        ops.append(params_hist(rng, entries))
+    for _ in range(120 if thorough else 20):
+        ops.append(gboost_hist(rng, entries))
+    for _ in range(1500 if thorough else 120):
+        ops.append(random_hist(rng, entries))
     return ops
 
 
@@ -948,7 +1559,8 @@ def gen(rng, tier):
             entries = _dump()
         except Broken:
             entries = []      # a factory that throws is reported by the `factory ids` lines below
-    ops += factory_ops(rng, entries, 3 if thorough else 1)
+    ops += factory_ops(rng, entries, 4 if thorough else 2)
+    ops += owner_ops(rng, entries, thorough)
     specs = main_specs()
     deep = 6 if thorough else 4
     ncore = 5 if thorough else 6
@@ -999,6 +1611,12 @@ def nontrivial(op):
         return what == "walk"
     if fam == "config":
         return " reg " in op and (" get " in op or " cfg " in op)
+    if fam == "owner":
+        # a copy is taken of an owner whose owned objects / own parameters were configured before
+        toks = op.split()
+        copies = [i for i, w in enumerate(toks) if w in ("clone", "assign")]
+        conf = [i for i, w in enumerate(toks) if w in ("inst", "protos", "set")]
+        return bool(copies) and bool(conf) and min(conf) < max(copies)
     spec = read_spec(t)
     n = t.int()
     acc = rej = False
@@ -1019,6 +1637,11 @@ def distribution(ops):
             key = f"param/{t[2]}/len{k if k <= 6 else '7+'}"
         elif t[0] == "config":
             key = "config/len" + (t[2] if int(t[2]) <= 6 else "7+")
+        elif t[0] == "owner":
+            key = "owner/" + (t[4] if len(t) > 4 and t[3] == "new" else "?")
+            for w in ("inst", "instid", "protos", "ext", "clone", "assign", "probe"):
+                if w in t:
+                    d["owner-op/" + w] = d.get("owner-op/" + w, 0) + t.count(w)
         else:
             key = f"factory/{t[1]}" + (f"/{t[2]}" if t[1] == "walk" else "")
         d[key] = d.get(key, 0) + 1
@@ -1029,6 +1652,8 @@ def classify(op, kind, detail):
     t = op.split()
     fam = t[0] if t else "?"
     sub = t[2] if fam in ("param", "factory") and len(t) > 2 else ""
+    if fam == "owner":
+        sub = t[4] if len(t) > 4 and t[3] == "new" else "hist"
     if kind == "oracle":
         m = re.match(r"\[([a-z-]+)\]", detail or "")
         return f"{fam}/{sub}/{m.group(1) if m else 'oracle'}"
@@ -1065,3 +1690,45 @@ def shrink_candidates(op):
             yield f"config hist {len(rest)} " + " ".join(rest) if rest else "config hist 0"
     elif fam == "factory" and what == "walk" and " probe " in op:
         yield op[:op.rfind(" probe ")]
+    elif fam == "owner":
+        n = t.int()
+        oops = [read_oop(t) for _ in range(n)]
+        def refs(o):
+            k = o[0]
+            if k in ("set", "ext", "clone", "instid"):
+                return [o[1]]
+            if k in ("inst",):
+                return [o[1], o[3]]
+            if k in ("assign", "probe"):
+                return [o[1], o[2]]
+            if k == "protos":
+                return [o[1]] + list(o[2])
+            return []
+        def renum(text, o, drop):
+            """the wire text of o with every variable index above `drop` decreased by one"""
+            f = lambda x: x - 1 if x > drop else x
+            k = o[0]
+            w = text.split()
+            if k in ("set", "ext", "clone", "instid"):
+                w[1] = str(f(o[1]))
+            elif k == "inst":
+                w[1] = str(f(o[1])); w[3] = str(f(o[3]))
+            elif k in ("assign", "probe"):
+                w[1] = str(f(o[1])); w[2] = str(f(o[2]))
+            elif k == "protos":
+                w[1] = str(f(o[1])); w[3:] = [str(f(x)) for x in o[2]]
+            return " ".join(w)
+        # which variable an operation creates (the factory knows every id the generator uses except `no-such-…`)
+        made, count = [], 0
+        for o, text in oops:
+            creates = o[0] in ("ext", "clone") or (o[0] == "new" and not o[2].startswith("no-such"))
+            made.append(count if creates else None)
+            count += 1 if creates else 0
+        for i in reversed(range(n)):
+            if made[i] is None:
+                rest = [x[1] for x in oops[:i] + oops[i + 1:]]
+            elif all(made[i] not in refs(o) for o, _ in oops[i + 1:]):
+                rest = [x[1] for x in oops[:i]] + [renum(text, o, made[i]) for o, text in oops[i + 1:]]
+            else:
+                continue
+            yield f"owner hist {len(rest)} " + " ".join(rest) if rest else "owner hist 0"
